@@ -208,6 +208,42 @@ def _ast_to_schema(ck, repo):
         c = FuncView(fn).maybe_call(ctor)
         ck.ob(f"{fn_name} forwards {sorted(want)} to {ctor}", c is not None and set(kwargs(c)) == want, fn, c or fn.node, construct=f"builder:{fn_name}:forwards",
               detail=str(sorted(kwargs(c))) if c is not None else "no constructor call")
+    # every top-level builder registers what it built with the schema it was given, on every path that built something
+    REG = {"parse_scalar_type_definition": "add_scalar_definition", "parse_object_type_definition": "add_type_definition", "parse_interface_type_definition": "add_type_definition",
+           "parse_union_type_definition": "add_type_definition", "parse_enum_type_definition": "add_enum_definition", "parse_input_object_type_definition": "add_type_definition",
+           "parse_directive_definition": "add_directive_definition"}
+    REG.update({v: "add_extension" for k, v in mapping.items() if k.endswith("ExtensionNode")})
+    for fn_name, adder in sorted(REG.items()):
+        fn = st.funcs.get(fn_name)
+        if fn is None:
+            ck.ob(f"{fn_name} exists", False, where=STF, construct=f"builder:{fn_name}:registers")
+            continue
+        fv_ = FuncView(fn)
+        p0, p1 = fn.positional_params[:2]
+        adds = [c for c in fv_.calls(adder) if unparse(c.func.value) == p1]
+        built = None
+        if len(adds) == 1 and adds[0].args:
+            built = unparse(adds[0].args[0])
+        src = [n for n in walk_no_nested(fn.node) if isinstance(n, ast.Assign) and built is not None and unparse(n.targets[0]) == built and isinstance(n.value, ast.Call)]
+        ok = len(adds) == 1 and len(src) == 1 and set(fv_.conditions(adds[0])) <= {(p0, "T")} and not fv_.enclosing_loops(adds[0]) and fv_.dominated_by(adds[0], src[0])
+        ck.ob(f"{fn_name}: what it builds is registered with the schema ({adder}) whenever a node was given", ok, fn, adds[0] if adds else fn.node, construct=f"builder:{fn_name}:registers",
+              detail=str(sorted(fv_.conditions(adds[0]))) if adds else None)
+        nones = [r_ for r_ in fv_.returns() if unparse(r_.value) == "None"]
+        ck.ob(f"{fn_name}: nothing is built only for an absent node", all(set(fv_.conditions(r_)) == {(p0, "F")} for r_ in nones), fn, nones[0] if nones else fn.node,
+              construct=f"builder:{fn_name}:absent")
+    pd = st.func("parse_definition")
+    pdv = FuncView(pd)
+    disp = [c for c in pdv.calls() if isinstance(c.func, ast.Name) and c.func.id == "definition_parser"]
+    look = [n for n in walk_no_nested(pd.node) if isinstance(n, ast.Assign) and unparse(n.targets[0]) == "definition_parser"]
+    ok = len(disp) == 1 and [unparse(a) for a in disp[0].args] == pd.positional_params[:2] and set(pdv.conditions(disp[0])) == {("definition_parser is None", "F")} and \
+        len(look) == 1 and unparse(look[0].value) == f"_DEFINITION_PARSER_MAPPING.get({pd.positional_params[0]}.__class__.__name__)"
+    ck.ob("parse_definition dispatches every definition whose class has a table entry to that entry, with the schema under construction", ok, pd, disp[0] if disp else pd.node,
+          construct="builder:dispatch")
+    sr = dv.returns()
+    mk = [n for n in walk_no_nested(d.node) if isinstance(n, ast.Assign) and unparse(n.value) == f"GraphQLSchema(name={d.positional_params[1]})"]
+    pc = dv.calls("parse_definition")
+    ok = len(sr) == 1 and len(mk) == 1 and unparse(sr[0].value) == unparse(mk[0].targets[0]) and len(pc) == 1 and [unparse(a) for a in pc[0].args] == [unparse(lp[0].target) if lp else "?", unparse(mk[0].targets[0])]
+    ck.ob("schema_from_document: one fresh schema of the given name receives every definition and is returned", ok, d, sr[0] if sr else d.node, construct="builder:schema-object")
     iv = st.func("parse_input_value_definition")
     dct = [n for n in walk_no_nested(iv.node) if isinstance(n, ast.Dict)]
     keys = {k.value for k in dct[0].keys} if dct else set()
@@ -250,6 +286,8 @@ def _ast_to_schema(ck, repo):
                   c.methods["__init__"].node, construct=f"extension:{c.name}:default:{attr}",
                   detail=f"methods used: {sorted(used)}; a mismatch raises inside bake, GraphQLSchema.bake swallows it and every later extension is silently dropped")
     schema_extension_merges(ck, repo)
+    from .c12 import bake_pipeline
+    bake_pipeline(ck, repo)
     sb = repo.func("tartiflette/schema/schema.py", "GraphQLSchema._bake_extensions")
     sv = FuncView(sb)
     lp = [l for l in sv.loops() if isinstance(l, ast.For) and unparse(l.iter) == "self.extensions"]
@@ -447,6 +485,49 @@ def _deprecation_and_hiding(ck, repo):
     nr = [r_ for r_ in xv.returns() if unparse(r_.value) == "None"]
     ck.ob("introspection_directives_executor answers null for a hidden single element", len(nr) == 1 and any(t.startswith("is_invalid_value(") and o == "T" for t, o in xv.conditions(nr[0])), x,
           nr[0] if nr else x.node, construct="hidden:single")
+    # decision tables of the two hiding helpers
+    atoms = Atoms({"element.introspection_directives": "has_hooks", "result": "kept"})
+    for hh, kept in itertools.product([False, True], repeat=2):
+        if kept and not hh:
+            continue
+        val = {"has_hooks": hh, "kept": kept}
+        got = set()
+        for tr in ev.cfg.simulate(lambda n, env: evaluate(n.ast, env, val, atoms)):
+            rv = _ret_class(tr)
+            got.add(rv if isinstance(rv, str) else unparse(rv))
+        want = e.positional_params[0] if not hh else ("result" if kept else "UNDEFINED_VALUE")
+        ck.ob(f"execute_introspection_directive table {val}", got == {want}, e, e.node, construct=f"hidden:element-table:{int(hh)}{int(kept)}", detail=f"got {sorted(got)}, want {want}" + atoms.note())
+    hc = [c_ for c_ in ev.calls() if unparse(c_.func) == "element.introspection_directives"]
+    ok = len(hc) == 1 and ev.is_awaited(hc[0]) and [unparse(a) for a in hc[0].args] == e.positional_params[:3]
+    ck.ob("execute_introspection_directive: the element's own on_introspection chain is awaited with (element, ctx, info)", ok, e, hc[0] if hc else e.node, construct="hidden:element-call")
+    atoms = Atoms({f"isinstance({x.positional_params[0]}, list)": "is_list", "is_invalid_value(computed_element)": "hidden"})
+    for il, hid in itertools.product([False, True], repeat=2):
+        if il and hid:
+            continue
+        val = {"is_list": il, "hidden": hid}
+        got = set()
+        for tr in xv.cfg.simulate(lambda n, env: evaluate(n.ast, env, val, atoms)):
+            rv = _ret_class(tr)
+            t = rv if isinstance(rv, str) else unparse(rv)
+            got.add("filtered-list" if t.startswith("[") else t)
+        want = "filtered-list" if il else ("None" if hid else "computed_element")
+        ck.ob(f"introspection_directives_executor table {val}", got == {want}, x, x.node, construct=f"hidden:executor-table:{int(il)}{int(hid)}", detail=f"got {sorted(got)}, want {want}" + atoms.note())
+    g_ = xv.maybe_call("gather")
+    ok = g_ is not None and xv.is_awaited(g_) and len(g_.args) == 1 and isinstance(g_.args[0], ast.Starred) and isinstance(g_.args[0].value, ast.ListComp) and \
+        unparse(g_.args[0].value.generators[0].iter) == x.positional_params[0] and not g_.args[0].value.generators[0].ifs and \
+        unparse(g_.args[0].value.elt).startswith(f"execute_introspection_directive({unparse(g_.args[0].value.generators[0].target)}, ")
+    ck.ob("introspection_directives_executor: every item of a list goes through its own hooks, results in list order", ok and comp and unparse(comp[0].generators[0].iter) == "results" and
+          unparse(comp[0].elt) == unparse(comp[0].generators[0].target), x, g_ or x.node, construct="hidden:list-items")
+    for fn, retv in (("__schema_resolver", "{info}.schema"), ("__type_resolver", "{info}.schema.find_type({args}['name'])")):
+        f_ = repo.func("tartiflette/schema/introspection.py", fn)
+        f_v = FuncView(f_)
+        info_, args_ = f_.positional_params[3], f_.positional_params[1]
+        want = retv.format(info=info_, args=args_)
+        rr = [r_ for r_ in f_v.returns() if unparse(r_.value) == want]
+        flag = [n for n in walk_no_nested(f_.node) if isinstance(n, ast.Assign) and unparse(n.targets[0]) == f"{info_}.is_introspection" and unparse(n.value) == "True"]
+        ok = len(rr) == 1 and (f"{info_}.schema.is_introspectable", "T") in f_v.conditions(rr[0]) and len(flag) == 1 and f_v.dominated_by(rr[0], flag[0])
+        ck.ob(f"{fn}: answers from this request's schema and opens the introspection context first (so that hiding applies below it)", ok, f_, rr[0] if rr else f_.node,
+              construct=f"{fn}:answers")
     f = repo.func("tartiflette/resolver/factory.py", "resolve_field_value_or_error")
     fv = FuncView(f)
     c = fv.maybe_call("introspection_directives_executor")
